@@ -21,6 +21,7 @@ Print Assumptions C06_slice_in_bounds.
 (* ---------------------------------------------------------------------------------------------- *)
 From Coq Require Import List NArith Arith.
 From PT Require Import Model.Base Model.Stack Model.Texpr Model.Sem Model.Aparse Proofs.StackOps.
+From PT Require Import Proofs.StackInv Proofs.BoundaryOps Proofs.RefineCor Proofs.StackOpsReal.
 Import ListNotations.
 Local Close Scope Z_scope.
 
@@ -106,3 +107,157 @@ Theorem C06_slice_invalid : forall E n inh a b pos stk,
   slice_spec a b (Z.of_nat (length stk)) = None -> aparse E (S n) inh (TPeekSlice a b) pos stk = AFail.
 Proof. exact a_slice_invalid. Qed.
 Print Assumptions C06_slice_invalid.
+
+(* ---- the same effects on the REAL parse path: pest::Stack (cache / popped / snapshots, Model/Stack.v) read through its logical
+   content [cache (stk st)]; [SInv] is the representation invariant every reachable state satisfies (Proofs/StackInv.v) ---------- *)
+
+(* PUSH(e) pushes exactly the span e matched -- from where e started to where e ended, implicit skips inside e included -- on top
+   of the stack e left *)
+Theorem C06_real_push_text : forall E n inh e pos st p t st',
+  tparse E (S n) inh (TPush e) pos st = Ok (p, t) st' ->
+  exists t1 st1, tparse E n inh e pos st = Ok (p, t1) st1 /\ t = NPush t1 /\
+    cache (stk st') = (pos, p) :: cache (stk st1) /\ tr st' = tr st1 /\ pos <= p /\
+    span_str (e_inp E) (pos, p) = MOk (firstn (p - pos) (skipn pos (parent (e_inp E)))) /\
+    (forall gs, SInv (stk st1) gs -> SInv (stk st') gs).
+Proof. exact real_push_text. Qed.
+Print Assumptions C06_real_push_text.
+
+Theorem C06_real_pop : forall E n inh pos st gs p t st',
+  SInv (stk st) gs ->
+  tparse E (S n) inh TPop pos st = Ok (p, t) st' ->
+  exists sp txt, cache (stk st) = sp :: cache (stk st') /\ span_str (e_inp E) sp = MOk txt /\
+                 i_match_string (e_inp E) txt pos = MOk (Some p) /\ t = NSpanned KPop (fst sp) (snd sp) /\
+                 p = pos + length txt /\ tr st' = tr st /\ SInv (stk st') gs.
+Proof. exact real_pop. Qed.
+Print Assumptions C06_real_pop.
+
+(* POP fails, never panics: on an empty stack (one special event) or on a mismatch -- and then, as in pest, the entry HAS been
+   popped: it is the enclosing restore-on-failure (C05) that gives it back, next theorem *)
+Theorem C06_real_pop_fail : forall E n inh pos st gs st',
+  SInv (stk st) gs ->
+  tparse E (S n) inh TPop pos st = Fail st' ->
+  (cache (stk st) = [] /\ st' = ev (EEmptyStack pos) st) \/
+  (exists sp txt, cache (stk st) = sp :: cache (stk st') /\ span_str (e_inp E) sp = MOk txt /\
+                  i_match_string (e_inp E) txt pos = MOk None /\ tr st' = tr st /\ SInv (stk st') gs).
+Proof. exact real_pop_fail. Qed.
+Print Assumptions C06_real_pop_fail.
+
+Theorem C06_real_opt_pop_mismatch_restores : forall E n inh pos st gs st1,
+  e_ron_fixed E = true -> SInv (stk st) gs ->
+  tparse E (S n) inh TPop pos st = Fail st1 ->
+  exists st2, tparse E (S (S n)) inh (TOpt TPop) pos st = Ok (pos, NOpt None) st2 /\
+              cache (stk st2) = cache (stk st) /\ SInv (stk st2) gs.
+Proof. exact real_opt_pop_mismatch_restores. Qed.
+Print Assumptions C06_real_opt_pop_mismatch_restores.
+
+(* total form on good inputs: parse path and check path, every case *)
+Theorem C06_real_pop_total : forall E n inh pos st gs,
+  good_inp (e_inp E) -> good_cur (e_inp E) pos -> Forall (good_span (e_inp E)) (cache (stk st)) ->
+  SInv (stk st) gs ->
+  match cache (stk st) with
+  | [] => tparse E (S n) inh TPop pos st = Fail (ev (EEmptyStack pos) st) /\
+          tcheck E (S n) inh TPop pos st = Fail (ev (EEmptyStack pos) st)
+  | sp :: rest =>
+      exists txt o st1, span_str (e_inp E) sp = MOk txt /\ i_match_string (e_inp E) txt pos = MOk o /\
+        cache (stk st1) = rest /\ tr st1 = tr st /\ SInv (stk st1) gs /\
+        tparse E (S n) inh TPop pos st =
+          match o with Some p => Ok (p, NSpanned KPop (fst sp) (snd sp)) st1 | None => Fail st1 end /\
+        tcheck E (S n) inh TPop pos st =
+          match o with Some p => Ok p st1 | None => Fail st1 end
+  end.
+Proof. exact real_pop_total. Qed.
+Print Assumptions C06_real_pop_total.
+
+Theorem C06_real_peek : forall E n inh pos st p t st',
+  tparse E (S n) inh TPeek pos st = Ok (p, t) st' ->
+  exists sp rest txt, cache (stk st) = sp :: rest /\ st' = st /\ span_str (e_inp E) sp = MOk txt /\
+                      i_match_string (e_inp E) txt pos = MOk (Some p) /\
+                      t = NSpanned KPeek pos p /\ p = pos + length txt.
+Proof. exact real_peek. Qed.
+Print Assumptions C06_real_peek.
+
+Theorem C06_real_drop : forall E n inh pos st gs,
+  SInv (stk st) gs ->
+  match cache (stk st) with
+  | [] => tparse E (S n) inh TDrop pos st = Fail (ev (EEmptyStack pos) st) /\
+          tcheck E (S n) inh TDrop pos st = Fail (ev (EEmptyStack pos) st)
+  | sp :: rest =>
+      exists st1, cache (stk st1) = rest /\ tr st1 = tr st /\ SInv (stk st1) gs /\
+        tparse E (S n) inh TDrop pos st = Ok (pos, NDrop) st1 /\
+        tcheck E (S n) inh TDrop pos st = Ok pos st1
+  end.
+Proof. exact real_drop_total. Qed.
+Print Assumptions C06_real_drop.
+
+(* PEEK_ALL / POP_ALL match the entries top to bottom ([peek_spans] over the logical stack, top first); POP_ALL leaves the empty
+   stack, and on a mismatch leaves the state untouched (never a half-popped stack) *)
+Theorem C06_real_peek_all : forall E n inh pos st p t st',
+  tparse E (S n) inh TPeekAll pos st = Ok (p, t) st' ->
+  peek_spans E (cache (stk st)) pos = MOk (Some p) /\ st' = st /\ t = NSpanned KPeekAll pos p.
+Proof. exact real_peek_all. Qed.
+Print Assumptions C06_real_peek_all.
+
+Theorem C06_real_pop_all : forall E n inh pos st gs p t st',
+  SInv (stk st) gs ->
+  tparse E (S n) inh TPopAll pos st = Ok (p, t) st' ->
+  peek_spans E (cache (stk st)) pos = MOk (Some p) /\ cache (stk st') = [] /\
+  t = NSpanned KPopAll pos p /\ tr st' = tr st /\ SInv (stk st') gs.
+Proof. exact real_pop_all. Qed.
+Print Assumptions C06_real_pop_all.
+
+Theorem C06_real_pop_all_fail : forall E n inh pos st st',
+  tparse E (S n) inh TPopAll pos st = Fail st' ->
+  peek_spans E (cache (stk st)) pos = MOk None /\ st' = st.
+Proof. exact real_pop_all_fail. Qed.
+Print Assumptions C06_real_pop_all_fail.
+
+(* what [peek_spans] means: the concatenation of the entries' texts, in list order, is a prefix of the rest of the input *)
+Theorem C06_peek_spans_concat : forall E sps pos p,
+  peek_spans E sps pos = MOk (Some p) ->
+  exists txts, texts_of (e_inp E) sps txts /\
+    is_prefix (concat txts) (raw_rest (e_inp E) pos) = true /\ p = pos + length (concat txts).
+Proof. exact peek_spans_some_concat. Qed.
+Print Assumptions C06_peek_spans_concat.
+
+(* PEEK[a..b]: entries s..e-1 counted from the bottom, bottom to top; the stack is unchanged; total form for both paths *)
+Theorem C06_real_peek_slice : forall E n inh a b pos st p t st',
+  tparse E (S n) inh (TPeekSlice a b) pos st = Ok (p, t) st' ->
+  exists s e, slice_spec a b (Z.of_nat (length (cache (stk st)))) = Some (s, e) /\ st' = st /\
+    peek_spans E (if (e <=? s)%Z then []
+                  else firstn (Z.to_nat e - Z.to_nat s) (skipn (Z.to_nat s) (rev (cache (stk st))))) pos
+      = MOk (Some p) /\
+    t = slice_node b.
+Proof. exact real_peek_slice. Qed.
+Print Assumptions C06_real_peek_slice.
+
+Theorem C06_real_slice_invalid : forall E n inh a b pos st,
+  slice_spec a b (Z.of_nat (length (cache (stk st)))) = None ->
+  tparse E (S n) inh (TPeekSlice a b) pos st = Fail (ev (EOutOfBound pos a b) st) /\
+  tcheck E (S n) inh (TPeekSlice a b) pos st = Fail (ev (EOutOfBound pos a b) st).
+Proof. exact real_slice_invalid. Qed.
+Print Assumptions C06_real_slice_invalid.
+
+(* an empty range succeeds without consuming *)
+Theorem C06_real_peek_slice_empty : forall E n inh a b pos st s e,
+  good_inp (e_inp E) -> good_cur (e_inp E) pos ->
+  slice_spec a b (Z.of_nat (length (cache (stk st)))) = Some (s, e) -> (e <= s)%Z ->
+  tparse E (S n) inh (TPeekSlice a b) pos st = Ok (pos, slice_node b) st /\
+  tcheck E (S n) inh (TPeekSlice a b) pos st = Ok pos st.
+Proof. exact real_peek_slice_empty. Qed.
+Print Assumptions C06_real_peek_slice_empty.
+
+(* negative indices count from the top: PEEK[-k..] matches the k topmost entries, the lowest of them first *)
+Theorem C06_real_peek_slice_neg_top : forall E n inh k pos st p t st',
+  0 < k <= length (cache (stk st)) ->
+  tparse E (S n) inh (TPeekSlice (- Z.of_nat k) None) pos st = Ok (p, t) st' ->
+  peek_spans E (rev (firstn k (cache (stk st)))) pos = MOk (Some p) /\ st' = st.
+Proof. exact real_peek_slice_neg_top. Qed.
+Print Assumptions C06_real_peek_slice_neg_top.
+
+(* non-vacuity, on "abbba": PUSH("a") PUSH("b") PEEK[-1..] POP_ALL -- the logical stack after every step *)
+Theorem C06_real_example :
+  run_steps (w_env true [97; 98; 98; 98; 97]%N) 4
+    [TPush (TStr [97%N]); TPush (TStr [98%N]); TPeekSlice (-1) None; TPopAll] 0 st0
+  = [Some (1, [(0, 1)]); Some (2, [(1, 2); (0, 1)]); Some (3, [(1, 2); (0, 1)]); Some (5, [])].
+Proof. exact real_run_steps. Qed.
+Print Assumptions C06_real_example.
